@@ -30,7 +30,7 @@ MECHANISMS = ["jaxley.modules.base:Module.insert", "jaxley.modules.base:Module.d
               "jaxley.modules.base:Module.to_jax", "jaxley.modules.base:Module.get_all_parameters", "jaxley.modules.base:Module.init_states"]
 MECHANISMS_REQUIRED = MECHANISMS[:9]
 REQUIRED = {"quick": {"R6": 1200, "undo": 60, "refsim_equiv": 300},
-            "thorough": {"R6": 6000, "undo": 60, "refsim_equiv": 1500}}
+            "thorough": {"R6": 13016, "undo": 81, "refsim_equiv": 5318}}
 WALL_BUDGET = {"quick": 1500, "thorough": 5 * 3600}
 
 MODULES = {
